@@ -148,8 +148,7 @@ OpStart ==
                                                 sid |-> e.sid, n |-> e.n, off |-> e.off]),
                     !.conns = IF e.op = "connect" THEN @ \cup {<<e.c, 1>>} ELSE @,
                     \* write_all moves bytes before it completes
-                    !.whi = IF e.op = "write_all" THEN Set(@, d, Max(At(@, d, 0), e.off + e.n)) ELSE @,
-                    !.used = IF e.op = "write_all" THEN @ \cup {<<e.c, e.sid>>} ELSE @]
+                    !.whi = IF e.op = "write_all" THEN Set(@, d, Max(At(@, d, 0), e.off + e.n)) ELSE @]
   /\ UNCHANGED <<bad, cur>> /\ l' = l + 1
 
 \* a dropped pending future: cancel-safe operations leave no trace; write_all / read_to_end do
@@ -382,8 +381,9 @@ DataCond(p) ==
     [] p.op \in WriteOps ->
          \* the peer stopped the stream, or read everything ever written (credit was returned), or waits to read
          \* (a stopped stream with a tight send window is excluded: see KnownStoppedWriter below)
-         (dw \in DOMAIN m.stp /\ ~Tight(c, s)) \/ PendRead(dw)
-           \/ (dw \notin m.rdirty /\ At(m.cursor, dw, 0) = At(m.whi, dw, 0) /\ At(m.wlo, dw, 0) = At(m.whi, dw, 0))
+         IF dw \in DOMAIN m.stp THEN ~Tight(c, s)
+         ELSE PendRead(dw)
+                \/ (dw \notin m.rdirty /\ At(m.cursor, dw, 0) = At(m.whi, dw, 0) /\ At(m.wlo, dw, 0) = At(m.whi, dw, 0))
     [] p.op \in AcceptOps ->
          \E u \in m.used : u[1] = c /\ Initiator(u[2]) = 1 - s /\ Dir(u[2]) = OpDir(p.op)
                            /\ Index(u[2]) >= At(m.accepted, <<c, s, OpDir(p.op)>>, 0)
